@@ -67,6 +67,10 @@ add("C16", "hypothesis-generated stiffness pairs/eigenstrains/radii/rotations wi
     "Generated search over mechanically stable isotropic/cubic stiffness pairs, scalar/vector/tensor eigenstrains, sphere/needle/plate/general radii, rotations and quadrature orders: E >= 0, E(s r) = s^3 E(r), E(c eps) = c^2 E(eps), both 3x3 inversion routines, 4th-rank vs 6x6 variants, inhomogeneous = homogeneous result for equal stiffness, setter order of rotation and stiffness, closed-form dilatational sphere through the Eshelby and the spherical path, shape independence of the dilatational energy, textbook Eshelby tensor components, axis-permutation and matrix-orientation invariance (judged strictly with the built-in midpoint integration), tensor/modulus conversions, and exactness of the three Lebedev rules on monomials up to degree 12.",
     "open finding KF-C16-1 (Lebedev node generator inexact): clauses that use the Lebedev nodes for node-dependent quantities carry a sanity envelope; the strict versions use the midpoint integration (accuracy measured)")
 
+add("C20", "hypothesis-generated solve/save/load histories (round-trip oracle, exact equality) on toy/stub backends; surrogate differential (untrained getter vs backend), interpolation-at-training-points and JSON round-trip oracles",
+    "Generated histories of 1-3 (precipitation) / 1-4 (diffusion) solve calls with saves after a random subset of calls (mid-run and final), PSD/profile recording on and off, 1-3 phases: the file loaded into a freshly built model of the same configuration reproduces all 16 histories, the step counter, the size distributions and grids exactly (PSD record through its own save/load pair; diffusion: time, profile and recorded history). Surrogates over an analytic binary backend: untrained getters equal the backend exactly, trained models reproduce their training outputs at the training inputs, a surrogate rebuilt from its JSON file predicts identically.",
+    "toy/stub backends (the file format and the surrogate plumbing do not depend on the database); BinarySurrogate only (the multicomponent curvature surrogate is not exercised)")
+
 NOT_YET = {"C09": "only the composition-cache (HashTable) clause is built so far; thermodynamic query purity on the shipped databases is pending - claimed once complete"}
 
 ALL = ["C%02d" % i for i in range(1, 21)]
